@@ -89,6 +89,11 @@ func mustSum(data []byte) mh.Multihash {
 func randBlock(r *rand.Rand) ipld.Block {
 	data := make([]byte, r.Intn(41)) // one in 41 has an empty payload: a complete, valid block
 	r.Read(data)
+	if r.Intn(6) == 0 {
+		// a small value inlined in its own CID (identity multihash): still a block that must travel
+		d, _ := mh.Sum(data, mh.IDENTITY, -1)
+		return block.NewBlock(cidlink.Link{Cid: cid.NewCidV1(0x55, d)}, data)
+	}
 	d, _ := mh.Sum(data, mh.SHA2_256, -1)
 	return block.NewBlock(cidlink.Link{Cid: cid.NewCidV1(0x55, d)}, data)
 }
@@ -240,6 +245,7 @@ func init() {
 		far := int(ucan.Now()) + 100000
 		nonce := 0
 		var direct []map[string]any
+		nhist := 0
 		var dcases, mcases, bcases, acases []string
 		var samples []any
 		shapes := map[string]int{}
@@ -512,6 +518,84 @@ func init() {
 				samples = append(samples, map[string]any{"message": i, "invocations": ninv, "receipts": nrc, "blocks": nb})
 			}
 		}
+		// ---- the same token seen in two messages with different closures: in the first its own proof travels only as a
+		// link, in the second inline — what is read from the second message must be the second message's
+		for i := 0; i < 6; i++ {
+			root := cast.Ed(fmt.Sprintf("hq%d", i))
+			mid := cast.Ed(fmt.Sprintf("hp%d", i))
+			leaf := cast.Ed(fmt.Sprintf("hl%d", i))
+			mk := func(iss, aud *Prin, nonce string, prf ...delegation.Proof) delegation.Delegation {
+				opts := []delegation.Option{delegation.WithExpiration(far), delegation.WithNonce(nonce)}
+				if len(prf) > 0 {
+					opts = append(opts, delegation.WithProof(prf...))
+				}
+				d, err := delegation.Delegate(iss.Signer, aud.DID, []ucan.Capability[ucan.CaveatBuilder]{
+					ucan.NewCapability[ucan.CaveatBuilder]("store/add", root.DID.String(), Cav{})}, opts...)
+				if err != nil {
+					panic(err)
+				}
+				return d
+			}
+			q := mk(root, mid, fmt.Sprintf("hq-%d", i))
+			pLink := mk(mid, leaf, fmt.Sprintf("hp-%d", i), delegation.FromLink(q.Link()))
+			pFull := mk(mid, leaf, fmt.Sprintf("hp-%d", i), delegation.FromDelegation(q))
+			if pLink.Link().String() != pFull.Link().String() {
+				direct = append(direct, map[string]any{"message": -1, "what": "history: the same fields gave two different links (issuance is not deterministic)"})
+				continue
+			}
+			for round, p := range []delegation.Delegation{pLink, pFull, pLink} {
+				inv, err := invocation.Invoke(leaf.Signer, service.DID, ucan.NewCapability[ucan.CaveatBuilder]("store/add", root.DID.String(), Cav{}),
+					delegation.WithExpiration(far), delegation.WithNonce(fmt.Sprintf("hi-%d-%d", i, round)), delegation.WithProof(delegation.FromDelegation(p)))
+				if err != nil {
+					return err
+				}
+				msg, err := message.Build([]invocation.Invocation{inv}, nil)
+				if err != nil {
+					return err
+				}
+				req, _ := request.Encode(msg)
+				dmsg, err := request.Decode(req)
+				if err != nil {
+					direct = append(direct, map[string]any{"message": -1, "what": "history: decode failed: " + err.Error()})
+					continue
+				}
+				br, _ := blockstore.NewBlockReader(blockstore.WithBlocksIterator(dmsg.Blocks()))
+				v, err := invocation.NewInvocationView(dmsg.Invocations()[0], br)
+				if err != nil {
+					direct = append(direct, map[string]any{"message": -1, "what": "history: invocation not viewable: " + err.Error()})
+					continue
+				}
+				// walk: invocation -> P -> Q
+				gotQ := false
+				for _, pprf := range delegation.NewProofsView(v.Proofs(), br) { // as the validator resolves proofs
+					pv, ok := pprf.Delegation()
+					if !ok {
+						direct = append(direct, map[string]any{"message": -1, "what": "history: the inline proof of the invocation is not viewable"})
+						continue
+					}
+					for _, qq := range delegation.NewProofsView(pv.Proofs(), br) {
+						if _, ok := qq.Delegation(); ok {
+							gotQ = true
+						}
+					}
+					nq := 0
+					for b, err := range pv.Blocks() {
+						if err == nil && b.Link().String() == q.Link().String() {
+							nq++
+						}
+					}
+					if (nq > 0) != (round == 1) {
+						direct = append(direct, map[string]any{"message": -1, "what": fmt.Sprintf("history: message %d of 3 (proof of the proof travels %s): Blocks() of the proof read from THIS message %s that block",
+							round+1, []string{"as a link", "inline", "as a link"}[round], map[bool]string{true: "carries", false: "lacks"}[nq > 0])})
+					}
+				}
+				if gotQ != (round == 1) {
+					direct = append(direct, map[string]any{"message": -1, "what": fmt.Sprintf("history: message %d of 3 (proof of the proof travels %s): the proof's own proof is %s as a delegation",
+						round+1, []string{"as a link", "inline", "as a link"}[round], map[bool]string{true: "viewable", false: "not viewable"}[gotQ])})
+				}
+				nhist++
+			}
+		}
 		write := func(prefix, imports, typ, fn string, cases []string, shards int) error {
 			per := (len(cases) + shards - 1) / shards
 			if per == 0 {
@@ -547,7 +631,7 @@ func init() {
 			return err
 		}
 		return writeJSON(o.out, "stats.json", map[string]any{"delegations": ndel, "messages": nmsg, "direct_violations": direct,
-			"distinct_shapes": len(shapes), "samples": samples,
+			"distinct_shapes": len(shapes), "cross_message_history_steps": nhist, "samples": samples,
 			"model_cases": map[string]int{"delegation_block_sequences": len(dcases), "message_block_sequences": len(bcases), "message_root_blocks": len(mcases), "archive_root_blocks": len(acases)}})
 	}
 }
